@@ -38,15 +38,17 @@ Print Assumptions zone_roundtrip.
    names printed as stored, i.e. the default ZoneStyle/to_text name options) - by C01's text round
    trip and C06's relativize/derelativize laws.  Relativized zone: the stored name is relative and
    name + origin fits in 255 octets; absolute zone: the stored name is inside the origin. *)
-Theorem owner_roundtrip_relativized : forall (c : cfg) (st : style) (zo n : name),
+Theorem owner_roundtrip_relativized : forall (c : cfg) (st : style) (zo : name),
   Valid zo /\ AllBytes zo /\ is_absolute zo = true -> st_origin st = None ->
+  forall n : name,
   c_rel c = true -> Valid n -> AllBytes n -> is_absolute n = false -> Valid (n ++ zo) ->
   owner_ok c st zo n (NameM.to_text n) (n ++ zo).
 Proof. exact owner_ok_relativized. Qed.
 Print Assumptions owner_roundtrip_relativized.
 
-Theorem owner_roundtrip_absolute : forall (c : cfg) (st : style) (zo n : name),
+Theorem owner_roundtrip_absolute : forall (c : cfg) (st : style) (zo : name),
   st_origin st = None ->
+  forall n : name,
   c_rel c = false -> Valid n -> AllBytes n -> is_absolute n = true -> is_subdomain n zo = true ->
   owner_ok c st zo n (NameM.to_text n) n.
 Proof. exact owner_ok_absolute. Qed.
